@@ -27,6 +27,37 @@ pub fn run_cand(run: &mut Run, s: &str, nt: bool) {
     } });
 }
 
+/// oracle-only stream `candutf` (lines `noncompared`): candidate strings with multi-byte characters INSIDE tokens (the compared
+/// `cand` stream and its model are ASCII): any byte-offset operation on a `&str` (slice, truncate, split_at, index) is a char-boundary panic site
+pub fn run_candutf(run: &mut Run, s: &str, nt: bool) {
+    let t = s.to_string();
+    exec(run, "candutf", &hex(s.as_bytes()), "IceCandidate::from_sdp", nt, Some((16, 1024, s.len() as u64)), move || {
+        if let Ok(c) = IceCandidate::from_sdp(&t) { let _ = c.to_sdp(); }
+        "noncompared".into()
+    });
+}
+/// `line` with a 2-, 3- or 4-byte character inserted into / substituted in each space-separated token at the offsets where length
+/// caps and prefix strips sit (0, 1, 2, 7, 8, 15, 16, 31, 32, 33, 63, 64, len-1, len)
+pub fn utf8_variants(line: &str) -> Vec<String> {
+    let toks: Vec<&str> = line.split(' ').collect();
+    let mut out = vec![];
+    for (ti, t) in toks.iter().enumerate() {
+        if !t.is_ascii() { continue; }
+        let n = t.len();
+        let mut offs = vec![0usize, 1, 2, 7, 8, 15, 16, 31, 32, 33, 63, 64, n.saturating_sub(1), n];
+        if let Some(c) = t.find(':') { offs.push(c); offs.push(c + 1); offs.push(c + 2); offs.push(c + 32); offs.push(c + 33); }
+        offs.sort(); offs.dedup();
+        for &o in offs.iter().filter(|&&o| o <= n) {
+            for ch in ["é", "€", "😀"] {
+                let ins = format!("{}{}{}", &t[..o], ch, &t[o..]);
+                let mut v: Vec<String> = toks.iter().map(|x| x.to_string()).collect(); v[ti] = ins; out.push(v.join(" "));
+                if o < n { let sub = format!("{}{}{}", &t[..o], ch, &t[o + 1..]); let mut v: Vec<String> = toks.iter().map(|x| x.to_string()).collect(); v[ti] = sub; out.push(v.join(" ")); }
+            }
+        }
+    }
+    out
+}
+
 fn gen_cand(rng: &mut Rng) -> String {
     let num = |rng: &mut Rng, max: u64| -> String { match rng.below(12) {
         0 => (max + 1).to_string(), 1 => max.to_string(), 2 => "0".into(), 3 => format!("+{}", rng.below(max + 1)), 4 => "-1".into(),
@@ -297,6 +328,12 @@ pub fn special(run: &mut Run, rng: &mut Rng, thorough: bool) {
     for s in ["", " ", "1 1 udp 1 1.2.3.4 5 typ host", "candidate:1 1 tcp 1 1.2.3.4 5 typ host tcptype", "1 1 TCP 1 1.2.3.4 5 typ host x tcptype active",
         "1 1 tcp 1 1.2.3.4 5 typ host x y tcptype so", "1 1 udp 1 1.2.3.4 5 typ", "1 65536 udp 1 1.2.3.4 5 typ host", "1 1 udp 4294967296 1.2.3.4 5 typ host"] { run_cand(run, s, true); }
     for _ in 0..(if thorough { 200_000 } else { 8_000 }) { let s = gen_cand(rng); run_cand(run, &s, true); }
+    // multi-byte characters inside candidate tokens (oracle-only)
+    for base in ["candidate:1 1 udp 2130706431 192.0.2.1 50000 typ host", "candidate:aaaaaaaaaaaaaaaaaaaaaaaaaaaaaaa 1 udp 2130706431 192.0.2.1 50000 typ host",
+        "1 1 tcp 1 1.2.3.4 5 typ srflx raddr 10.0.0.1 rport 9 tcptype passive generation 0 ufrag abcd network-id 1"] {
+        for v in utf8_variants(base) { run_candutf(run, &v, true); }
+    }
+    for _ in 0..(if thorough { 2_000 } else { 40 }) { let c = gen_cand(rng); let vs = utf8_variants(&c); for _ in 0..8 { if !vs.is_empty() { let v = rng.pick(&vs).clone(); run_candutf(run, &v, true); } } }
     // mid arithmetic through the live signaling entry
     let live = LivePc::new();
     for mid in ["0", "1", "7", "65534", "65535", "65536", "x", "", "-1", "00065535", "4294967295"] { run_sdpmid(run, &live, mid, true); }
@@ -315,6 +352,21 @@ pub fn special(run: &mut Run, rng: &mut Rng, thorough: bool) {
     }
     for (mode, base) in [(0u8, TEMPLATE), (1, TEMPLATE_SDES), (2, TEMPLATE_SDES)] {
         for v in token_variants(base) { run_sdpparse(run, &v, true); run_sdpset(run, &live, mode, &v, true); }
+    }
+    // multi-byte characters inside the tokens of every line (byte-offset operations on `&str`)
+    for (mode, base) in [(0u8, TEMPLATE), (1, TEMPLATE_SDES)] {
+        let lines: Vec<&str> = base.split("\r\n").filter(|l| !l.is_empty()).collect();
+        for (i, l) in lines.iter().enumerate() {
+            let vs = utf8_variants(l);
+            let step = if thorough { 1 } else { 5 };
+            for (k, v) in vs.iter().enumerate() {
+                if (k + i) % step != 0 { continue; }
+                let mut ls: Vec<String> = lines.iter().map(|x| x.to_string()).collect(); ls[i] = v.clone();
+                let text = ls.join("\r\n") + "\r\n";
+                run_sdpparse(run, &text, true);
+                if (k + i) % (step * 8) == 0 { run_sdpset(run, &live, if mode == 1 && k % 2 == 0 { 2 } else { mode }, &text, true); }
+            }
+        }
     }
     // large descriptions (many sections / candidates / rids, 60 KB lines) and the answer / re-INVITE paths
     for k in if thorough { vec![1usize, 8, 64, 300, 1000] } else { vec![1usize, 8, 64, 200] } {
@@ -338,6 +390,7 @@ pub fn special(run: &mut Run, rng: &mut Rng, thorough: bool) {
 pub fn replay_special(run: &mut Run, stream: &str, a: &[&str]) -> bool {
     if stream == "sdpsdes" && a.len() == 3 { let p = |s: &str| s.parse::<u64>().unwrap_or(0); let live = LivePc::new(); run_sdpsdes(run, &live, p(a[0]) as usize, p(a[1]) as usize, p(a[2]), true); return true; }
     match (stream, a.len()) {
+        ("candutf", 1) => { run_candutf(run, &String::from_utf8_lossy(&unhex(a[0])), true); true }
         ("cand", 1) => { run_cand(run, &String::from_utf8_lossy(&unhex(a[0])), true); true }
         ("sdpmid", 1) => { let l = LivePc::new(); run_sdpmid(run, &l, a[0], true); true }
         ("sdpparse", 1) => { run_sdpparse(run, &String::from_utf8_lossy(&unhex(a[0])), true); true }
